@@ -4,6 +4,16 @@ import json
 import os
 
 BUILT = {
+    "C05": dict(
+        text="Theorems (no axioms): iter_unordered delivers map f tasks in an arbitrary permutation; a fold of keyed writes with distinct keys (keyed_fold_perm), or with repeated keys carrying a value that is a function of the key (keyed_fold_perm_fun), is independent of that permutation; hence count_pairs (cells keyed by the patch pair, halved auto diagonal, weight-sum columns), load_patches (dictionary keyed by patch id) and the index-carrying histogram rows are schedule-free; rows filled in arrival order (pinned commit) are refuted (repaired in /repo). Tie: every parallel entry point (Catalog(cache), build_trees, autocorrelate, crosscorrelate, HistData.from_catalog) on the controllable pool under all completion orders for <= 4 tasks and seeded permutations beyond, several worker counts, plus the real pool with 2/4/16 workers: public results bit-identical to the sequential run; the results in arrival order and the final arrays are replayed through the keyed-fold model inside Coq.",
+        note="The OS scheduler is not exhibited: any order it can produce is a permutation, which the theorems cover. The controllable pool computes the results sequentially and only permutes their delivery; worker-side state (each task opens its own files) is exercised by the real-pool runs.",
+        technique="Coq proof (function-update stores, Permutation, NoDup) + schedule enumeration on a controllable pool with arrival-log replay evaluated in Coq",
+        ref="DESIGN.md §5 C05"),
+    "C13": dict(
+        text="Theorems (no axioms) about the specification of the measurement over labelled weighted points and ANY distance function: counts are invariant under permutation of the input rows (count_row_perm), under every isometry (count_isometry), under patch relabelling, jackknife samples permute with the relabelling (loo_patch_relabel), counts are additive over a split of a catalog (count_additive), and the normalised term is unchanged when all weights of one catalog are multiplied by k != 0 (norm_weight_scale). Tie: metamorphic pairs through the real pipeline (Catalog.from_dataframe -> crosscorrelate/autocorrelate -> sample / RedshiftData.from_corrfuncs): random SO(3) rotations, rotation onto a pole and across RA=0, row shuffles, centre permutations, weight factors 2, 1/4, 3 and random 2-splits; raw counts, weight sums, amplitudes, n(z), samples and covariance compared inside Coq (exact, or 2^-48 relative after a non-dyadic weight factor).",
+        note="That the implementation's counts equal the specification is C01; here two runs of the implementation are compared with each other. Rotations move unit vectors by rounding errors: scenarios with a pair within 2^-40 of a scale limit before or after the rotation are skipped and counted.",
+        technique="Coq proof (Permutation / map / filter lemmas, ring and field over Q) + metamorphic correspondence evaluated in Coq",
+        ref="DESIGN.md §5 C13"),
     "C03": dict(
         text="Machine-checked theorems (Coq 8.16, no axioms) over executable Q models of sample_patch_sum, PatchedSumWeights.get_array, NormalisedCounts.sample_patch_sum, CorrFunc.sample, cov_from_samples and a literal index-list model of resample_jackknife: for every matrix and patch count total-row-col+diag = recount without patch k; weight products (sum_{i!=k}u)(sum_{j!=k}v) for cross and 1/2(sum_{i!=k}w)^2 for auto (upper triangle, halved diagonal); estimator samples = documented estimator of the data with patch k deleted for every dr/rd/rr combination; covariance = (N-1)/N sum (x_k-mean)(x_k-mean)^T, symmetric, PSD, error the non-negative diagonal root; the pinned resample_jackknife provably leaves out patch N-1-k in row k (refuted; repaired in /repo) and the repaired index array is proved correct for all N. Tied on every run by symbolic traces of the real functions re-proved by ring (N in {2,3,4}, bins in {1,2}, auto/cross) and by correspondence on real containers and catalogs evaluated in Coq.",
         note="Trusted: Coq kernel + vm_compute; python harness incl. the symbolic-trace translator (assumes traced code branches on structure only); numpy einsum/tile/triu/cov/sqrt and pandas exercised, not modelled. Sums exact on dyadic inputs; quotients within 2^-48; covariance within 2^-44 of its natural scale. max_workers=1 (row order under parallel completion is C05). Zero denominators are not compared.",
